@@ -22,6 +22,9 @@ type TaintRunSpec struct {
 	Config   string `json:"config"` // path of the yaml file
 	Rewrites bool   `json:"rewrites"`
 	Repeat   int    `json:"repeat"` // number of repetitions (>=1); results are kept per repetition
+	// Analysis is "taint" (default) or "backtrace". For backtrace every (trace step position, entry site) pair is
+	// returned as a flow, and trace well-formedness defects in Shape.
+	Analysis string `json:"analysis,omitempty"`
 }
 
 // TaintJob is a worker job: run taint under several configurations on one program.
@@ -70,6 +73,12 @@ func RunTaintJob(job *TaintJob) *TaintJobResult {
 				return out
 			}
 			t0 := time.Now()
+			if rs.Analysis == "backtrace" {
+				br, _ := l.Backtrace(cfg)
+				out.AnaS += time.Since(t0).Seconds()
+				out.Results[rs.Name] = append(out.Results[rs.Name], backtraceAsFlows(br))
+				continue
+			}
 			tr, res := l.Taint(cfg)
 			out.AnaS += time.Since(t0).Seconds()
 			out.Results[rs.Name] = append(out.Results[rs.Name], tr)
@@ -80,6 +89,31 @@ func RunTaintJob(job *TaintJob) *TaintJobResult {
 			}
 		}
 	}
+	return out
+}
+
+// backtraceAsFlows flattens a backtrace result: one flow (step position -> entry site) per trace step.
+func backtraceAsFlows(br ana.BacktraceResult) ana.TaintResult {
+	out := ana.TaintResult{Err: br.Err}
+	seen := map[ana.FlowPair]bool{}
+	for _, e := range br.Entries {
+		out.Traces += len(e.Traces)
+		for _, se := range e.ShapeErrors {
+			if len(out.Shape) < 20 {
+				out.Shape = append(out.Shape, fmt.Sprintf("entry %s arg %d: %s", e.Site, e.Arg, se))
+			}
+		}
+		for _, t := range e.Traces {
+			for _, st := range t {
+				fp := ana.FlowPair{Src: ana.Pos{File: st.File, Line: st.Line}, Snk: e.Site}
+				if !seen[fp] {
+					seen[fp] = true
+					out.Flows = append(out.Flows, fp)
+				}
+			}
+		}
+	}
+	ana.SortFlows(out.Flows)
 	return out
 }
 
